@@ -131,3 +131,223 @@ def zoo_program(rng, bursts=(3, 12)):
             L.append(g)
             L.append("show(ls%d[1][0][\"k${%d}\"]); show(ls%d[0].len());" % (oi, n, oi))
     return "\n".join(L) + "\n"
+
+
+# ---------------------------------------------------------------------------------------------
+# Degenerate blocks (C20: every block the allocator lets go of is handed back): containers and
+# strings of capacity/length 0 obtained in every way the natives can produce them, lists that are
+# pushed to afterwards (the capacity-0 block becomes a forwarding stub), and one object of every
+# other kind — each either dropped at once, dropped at the end of a scope, or kept to the end.
+# The output never depends on when collections happen.
+
+def _empty_iter(rng, depth=2):
+    """an iterator expression that yields nothing (its size hint is 0 in most cases)"""
+    k = rng.randrange(14 if depth > 0 else 8)
+    if k == 0:
+        return "[].iter()"
+    if k == 1:
+        return "{}.iter()"
+    if k == 2:
+        return "().iter()"
+    if k == 3:
+        return "\"ab\".slice(1, 1).iter()"
+    if k == 4:
+        return "0.times()"
+    if k == 5:
+        n = rng.randint(0, 5)
+        return "%d.until(%d)" % (n, n)
+    if k == 6:
+        return "[%s].iter().take(0)" % ", ".join(str(rng.randint(0, 9)) for _ in range(rng.randint(0, 4)))
+    if k == 7:
+        n = rng.randint(0, 4)
+        return "[%s].iter().skip(%d)" % (", ".join(str(i) for i in range(n)), n + rng.randint(0, 3))
+    if k == 8:
+        return "%s.map(|x| [x])" % _empty_iter(rng, depth - 1)
+    if k == 9:
+        # the hint of a filter is not the number of elements: sometimes 0 elements, sometimes not
+        return "[%s].iter().filter(|x| x > %d)" % (", ".join(str(rng.randint(0, 9)) for _ in range(rng.randint(0, 5))), rng.choice([9, 9, 4]))
+    if k == 10:
+        a, b = _empty_iter(rng, depth - 1), "[1, 2, 3].iter()"
+        return "%s.zip(%s)" % ((a, b) if rng.random() < 0.5 else (b, a))
+    if k == 11:
+        return "%s.chain(%s)" % (_empty_iter(rng, depth - 1), _empty_iter(rng, depth - 1))
+    if k == 12:
+        return "%s.take(%d)" % (_empty_iter(rng, depth - 1), rng.randint(0, 3))
+    return "%s.skip(%d)" % (_empty_iter(rng, depth - 1), rng.randint(0, 3))
+
+
+def _empty_list(rng):
+    """a list expression of length 0; most of them have capacity 0 as well"""
+    k = rng.randrange(9)
+    it = _empty_iter(rng)
+    if k <= 1:
+        return "%s.into(List.collect)" % it
+    if k == 2:
+        return "List.collect(%s)" % it
+    if k == 3:
+        return "%s.list()" % it
+    if k == 4:
+        n = rng.randint(0, 3)
+        return "[%s].slice(%d, %d)" % (", ".join(str(i) for i in range(3)), n, n)
+    if k == 5:
+        return "[%s].slice(%d)" % (", ".join(str(i) for i in range(3)), 3)
+    if k == 6:
+        return "%s.into(List.collect).rev()" % it
+    if k == 7:
+        return "%s.into(List.collect).slice()" % it
+    return "[]"
+
+
+def _empty_other(rng, lit_empty):
+    """(expression, how to show it) for the degenerate values that are not lists"""
+    k = rng.randrange(12)
+    it = _empty_iter(rng)
+    if k == 0:
+        return "%s.into(Tuple.collect)" % it, "len"
+    if k == 1:
+        return "Tuple.collect(%s)" % it, "len"
+    if k == 2:
+        return "(1, 2).slice(%d, %d)" % (1, 1), "len"
+    if k == 3:
+        return "()", "len"
+    if k == 4:
+        return "{}", "len"
+    if k == 5:
+        return ("\"\"" if lit_empty else "\"q\".slice(1)"), "len"
+    if k == 6:
+        return "\"xyz\".slice(%d, %d)" % (2, 2), "len"
+    if k == 7:
+        return "\"  \".trim()", "len"
+    if k == 8:
+        return "%s.reduce(\"k\".slice(1), |a, x| a + \"${x}\")" % it, "len"
+    if k == 9:
+        return "\"k\".slice(1).upCase()", "len"
+    if k == 10:
+        return "\"ab\".slice(2).split(\",\").into(List.collect)", "len"
+    return it, "iter"
+
+
+def _other_kind(rng, oi, n):
+    """statements that create one object of a kind the other generators rarely drop"""
+    k = rng.randrange(9)
+    if k == 0:
+        return ["let c%d = chan(%s); show(c%d.len());" % (oi, rng.choice(["", "1", "3"]), oi)]
+    if k == 1:
+        return ["let c%d = chan(2); c%d <- [%d]; c%d <- \"s${%d}\"; c%d.close(); show(c%d.len());" % (oi, oi, n, oi, n, oi, oi)]
+    if k == 2:
+        return ["fn w%d(ch, v) { ch <- v; }" % oi,
+                "let c%d = chan(1); launch w%d(c%d, %d); show(<- c%d);" % (oi, oi, oi, n, oi)]
+    if k == 3:
+        return ["let f%d = || %d; show(f%d());" % (oi, n, oi)]
+    if k == 4:
+        return ["fn mk%d(a, b, c) { return || a + b + c; }" % oi, "let f%d = mk%d(%d, 1, 2); show(f%d());" % (oi, oi, n, oi)]
+    if k == 5:
+        return ["fn mc%d() { class Local%d { m() { return %d; } } return Local%d; }" % (oi, oi, n, oi),
+                "let k%d = mc%d(); show(k%d().m());" % (oi, oi, oi)]
+    if k == 6:
+        return ["let e%d = Empty(); show(e%d.tag());" % (oi, oi)]
+    if k == 7:
+        return ["let b%d = Box(nil); let m%d = b%d.get; show(m%d());" % (oi, oi, oi, oi)]
+    return ["let b%d = Box(Box(\"v${%d}\")); show(b%d.get().get());" % (oi, n, oi)]
+
+
+def _native_tour(rng, oi):
+    """the natives of List / Tuple / Map / String / Iter on receivers of 0, 1, a few and many elements: whatever a
+    native obtains on the Rust side (scratch vectors, strings, tables) has to be gone after the call"""
+    n = rng.choice([0, 1, 3, 9, 20, 40])
+    h = n // 2
+    r = "r%d" % oi
+    L = ["let %s = [%s];" % (r, ", ".join(str((i * 7) % 11) for i in range(n)))]
+    calls = [
+        "show(%s.rev().len());" % r,
+        "show(%s.slice(0, %d).len()); show(%s.slice(%d).len());" % (r, h, r, h),
+        "show(%s.sort(Number.cmp).len());" % r,
+        "show(%s.has(3)); show(%s.index(3));" % (r, r),
+        "show(%s.str().len());" % r,
+        "show(%s.iter().first()); show(%s.iter().last()); show(%s.iter().len());" % (r, r, r),
+        "%s.iter().each(|x| { total = total + x; });" % r,
+        "show(%s.iter().map(|x| x + 1).into(List.collect).len());" % r,
+        "show(%s.iter().filter(|x| x > 3).list().len());" % r,
+        "show(%s.iter().reduce(0, |a, x| a + x));" % r,
+        "show(%s.iter().zip(%s.iter()).into(List.collect).len());" % (r, r),
+        "show(%s.iter().chain(%s.iter()).into(Tuple.collect).len());" % (r, r),
+        "show(%s.iter().skip(2).take(%d).into(List.collect));" % (r, h),
+        "show(%s.iter().all(|x| x >= 0)); show(%s.iter().any(|x| x > 100));" % (r, r),
+        "if true { let t = Tuple.collect(%s.iter()); show(t.len()); show(t.slice(0, %d).len()); show(t.has(3)); show(t.index(3)); show(t.str().len()); }" % (r, h),
+        "if true { let m = {}; for x in %s { m[x] = [x]; } show(m.len()); show(m.has(3)); show(m.get(3)); show(m.str().len()); show(m.iter().reduce(0, |a, kv| a + kv[0])); }" % r,
+        "if true { let s = %s.str(); show(s.upCase().len()); show(s.downCase().len()); show(s.split(\",\").into(List.collect).len()); show(s.trim().len()); "
+        "show(s.trimStart().len()); show(s.trimEnd().len()); show(s.slice(1).len()); show(s.has(\"1\")); show(s.iter().into(List.collect).len()); }" % r,
+        "if true { let c = %s.slice(); c.push(1); c.insert(0, 2); show(c.pop()); show(c.remove(0)); c.clear(); show(c.len()); }" % r,
+    ]
+    rng.shuffle(calls)
+    return L + calls[:rng.randint(3, 7)]
+
+
+def degenerate_program(rng, bursts=(2, 8)):
+    """one program: degenerate blocks of every kind, created, grown, dropped and kept"""
+    lit_empty = rng.random() < 0.5          # without the literal "" the empty string itself can become garbage
+    L = ["class Box { init(v) { self.v = v; } get() { return self.v; } }",
+         "class Empty { tag() { return \"e\"; } }",
+         "fn show(x) { print(\"${x}\"); }",
+         "let keep = [];", "let total = 0;"]
+    n = rng.randint(0, 40)
+    for oi in range(rng.randint(4, 9)):
+        n += 3
+        g = GARBAGE % rng.randint(*bursts)
+        how = rng.randrange(9)
+        scoped = rng.random() < 0.6          # inside a block: garbage from the end of the block on
+        body = []
+        if how <= 2:
+            # a list of capacity 0 ...
+            e = _empty_list(rng)
+            use = rng.randrange(5)
+            if use == 0:
+                body.append("let l%d = %s; show(l%d.len());" % (oi, e, oi))
+            elif use == 1:
+                # ... pushed to afterwards: the capacity-0 block becomes a forwarding stub that an alias still points to
+                body.append("let l%d = %s; let a%d = l%d; let h%d = [l%d];" % (oi, e, oi, oi, oi, oi))
+                body.append("for i in %d.times() { l%d.push(i); }" % (rng.choice([1, 2, 5, 9, 20]), oi))
+                body.append("show(l%d.len()); show(a%d.len()); show(h%d[0].len());" % (oi, oi, oi))
+            elif use == 2:
+                body.append("let l%d = %s; l%d.insert(0, \"i${%d}\"); show(l%d); l%d.clear(); show(l%d.len());" % (oi, e, oi, n, oi, oi, oi))
+            elif use == 3:
+                body.append("for i in %d.times() { let t = %s; total = total + t.len(); }" % (rng.randint(2, 12), e))
+            else:
+                body.append("keep.push(%s); show(keep.len());" % e)
+        elif how <= 4:
+            e, shown = _empty_other(rng, lit_empty)
+            if shown == "iter":
+                body.append("let it%d = %s; show(it%d.next()); show(it%d.into(List.collect).len());" % (oi, e, oi, oi))
+            elif rng.random() < 0.5:
+                body.append("let v%d = %s; show(v%d.len());" % (oi, e, oi))
+            else:
+                body.append("for i in %d.times() { let t = %s; total = total + t.len(); }" % (rng.randint(2, 8), e))
+        elif how == 8:
+            body += _native_tour(rng, oi)
+        elif how == 5:
+            body += _other_kind(rng, oi, n)
+        elif how == 6:
+            # a map that grows and is emptied again
+            grow = rng.choice([1, 3, 9, 20])
+            body.append("let m%d = {}; for i in %d.times() { m%d[\"k${i}\"] = [i]; } for i in %d.times() { m%d.remove(\"k${i}\"); } show(m%d.len());"
+                        % (oi, grow, oi, rng.choice([0, 1, grow]), oi, oi))
+        elif how == 7 and rng.random() < 0.5:
+            # the big size classes: a long string, a wide tuple, an instance with many fields, a long list literal
+            body.append("class Wide%d { init(v) { self.a = v; self.b = v; self.c = v; self.d = v; self.e = [v]; self.f = \"f${v}\"; } }" % oi)
+            body.append("let w%d = Wide%d(%d); let big%d = \"long string number ${%d} with padding\"; let tup%d = (1, 2, 3, 4, 5, w%d, big%d);" % (oi, oi, n, oi, n, oi, oi, oi))
+            body.append("let ll%d = [%s]; show(tup%d.len() + ll%d.len() + big%d.len());" % (oi, ", ".join(str(i) for i in range(rng.randint(9, 14))), oi, oi, oi))
+        else:
+            body.append("let s%d = %s; let t%d = (s%d, s%d.len(), %s); show(t%d[1]);"
+                        % (oi, _empty_list(rng), oi, oi, oi, _empty_other(rng, lit_empty)[0] if rng.random() < 0.5 else "nil", oi))
+        if scoped:
+            L.append("if true {")
+            L += ["  " + b for b in body]
+            if rng.random() < 0.5:
+                L.append("  " + g)
+            L.append("}")
+        else:
+            L += body
+        if rng.random() < 0.6:
+            L.append(g)
+    L.append("show(total); show(keep.len());")
+    return "\n".join(L) + "\n"
